@@ -11,7 +11,7 @@ from ..report import Check
 from ..solver import Machine, Violation
 from ..solver import run as solve
 from .common import areas, in_area, is_tmp_pack, origin, root_name, strip_not, write_policy
-from .machines import loose_key_expr
+from .machines import path_operand, loose_key_expr
 
 DELETE = 'container:Container.delete_objects'
 REPACK = 'container:Container.repack_pack'
@@ -142,7 +142,7 @@ def run(ctx, host=None):
                 nun += 1
                 ar = areas(K, e[1])
                 if ar == {'loose'}:
-                    ke = loose_key_expr(K, n.ast.args[0], n.frame)
+                    ke = loose_key_expr(K, path_operand(n.ast), n.frame)
                     srcs = origin(K, ke[0], ke[1]) if ke else []
                     okp = bool(srcs) and all(root_name(o)[0] == 'param' and root_name(o)[2] == param for o in srcs)
                     if okp:
@@ -239,8 +239,10 @@ def run(ctx, host=None):
                 while tr is not None and not isinstance(tr, ast.Try):
                     tr = getattr(tr, '_parent', None)
                 in_try_body = tr is not None and any(c is x for s_ in tr.body for x in ast.walk(s_))
-                rm = [x for s_ in (tr.body if tr else []) for x in ast.walk(s_) if isinstance(x, ast.Call) and norm(x.func) in ('os.remove', 'os.unlink')]
-                if in_try_body and rm and rm[0].lineno < c.lineno:
+                in_try_else = tr is not None and any(c is x for s_ in tr.orelse for x in ast.walk(s_))
+                rm = [x for s_ in (tr.body if tr else []) for x in ast.walk(s_) if isinstance(x, ast.Call) and (norm(x.func) in ('os.remove', 'os.unlink')
+                                                                                                              or (isinstance(x.func, ast.Attribute) and x.func.attr == 'unlink' and not x.args))]
+                if (in_try_body and rm and rm[0].lineno < c.lineno) or (in_try_else and rm):
                     detail.append(f'{nm}: added after a successful unlink')
                 else:
                     okr = False
@@ -328,7 +330,7 @@ def run(ctx, host=None):
             v = last_assignment(n.test.operand.id, rp, n.lineno)
             if v is not None and 'pack_id ==' in norm(v).replace('Obj.', ''):
                 early = n
-    if early is not None and any(isinstance(c, ast.Call) and norm(c.func) in ('os.remove', 'os.unlink') for c in ast.walk(early)):
+    if early is not None and any(isinstance(c, ast.Call) and (norm(c.func) in ('os.remove', 'os.unlink') or (isinstance(c.func, ast.Attribute) and c.func.attr == 'unlink' and not c.args)) for c in ast.walk(early)):
         chk.ok(R4, REPACK, norm(early.test), detail='a pack without index rows is unlinked')
     else:
         chk.bad(R4, REPACK, 'empty-pack branch', 'a pack file without live objects is no longer removed by repack', where=f'{rp.module.relpath}:{rp.lineno}')
